@@ -57,6 +57,8 @@ class Oracle:
         self.prob = 1.0
         self.exact = True  # False once a discretised (non-exact) menu was used
         self.batches = 0  # counter of vectorised (size=) requests; batch id is part of the params
+        self.defaults = []
+        self.nondeterministic = False
         self.max_points = max_points
 
     # ------------------------------------------------------------------ core
@@ -299,7 +301,6 @@ def explore_deviations(fn, default_choice, d, use_global=True, max_points=5000):
                 c = dflt
             self.trace.append((kind, params, menu, c))
             self.prob *= menu[c][1]
-            self.defaults = getattr(self, "defaults", [])
             self.defaults.append(dflt)
             return menu[c][0]
 
